@@ -224,11 +224,37 @@ pub fn amount_scenario(rng: &mut Rng) -> String {
     s
 }
 
+/// front matter as people write it: several entries, non-ASCII keys and values, LF or CRLF, the whole mapping indented,
+/// nested mappings that repeat a top-level key name, standard keys with unsupported values and overriding time keys on
+/// late lines (their diagnostics are located by searching the YAML text line by line)
+pub fn fm_scenario(rng: &mut Rng) -> String {
+    const ENTRIES: &[&str] = &[
+        "title: Tarta de queso", "author: Ana", "cuisine: café", "descripción: rápido y fácil", "porción: grande", "größe: groß",
+        "tags: [dulce, fácil]", "servings: [muchas]", "servings: muchas", "servings: 4", "time: pronto", "time: 1h", "prep time: 5 min",
+        "cook time: é", "cook time: 10 min", "locale: español", "source: {name: Ñandú, url: x}", "author: <ñ>", "nota: añadir sal — ¡ya!",
+        "nutrition:\n  servings: dos\n  porción: x", "extra:\n  time: mañana\n  título: y", "título: Crème brûlée", "日本: 料理", "yield: número",
+    ];
+    let n = 2 + rng.below(7);
+    let indent = if rng.chance(1, 4) { "  " } else { "" };
+    let mut s = String::new();
+    if rng.chance(1, 6) { s.push('\n'); }
+    s.push_str("---\n");
+    for _ in 0..n {
+        let e = rng.pick_str(ENTRIES);
+        for line in e.split('\n') { s.push_str(indent); s.push_str(line); s.push('\n'); }
+    }
+    s.push_str("---\n");
+    s.push_str(rng.pick_str(&["Mezclar @azúcar{1%kg}.\n", "Sofreír el arroz.\n", "", ">> time: 2h\n\nListo.\n", "@a{1%é}\n"]));
+    if rng.chance(1, 3) { s = s.replace('\n', "\r\n"); }
+    s
+}
+
 pub fn recipe(rng: &mut Rng) -> String {
-    match rng.below(11) {
+    match rng.below(12) {
         0 | 1 => return ref_scenario(rng),
         2 => return meta_scenario(rng),
         10 => return amount_scenario(rng),
+        11 => return fm_scenario(rng),
         _ => {}
     }
     let mut s = String::new();
